@@ -1273,10 +1273,15 @@ class ObjectT(T):
             if self.dep_req:
                 lines.append("    _dr = dependent_required({" + ", ".join(f"{k!r}: {list(v)!r}" for k, v in self.dep_req.items()) + "})")
             for m in self.methods:
-                lines.append(f"    @serialized({m['alias']!r})" if m.get("alias") else "    @serialized")
+                margs = ([repr(m["alias"])] if m.get("alias") else []) + ([f"conversion={m['conv']}"] if m.get("conv") else [])
+                lines.append(f"    @serialized({', '.join(margs)})" if margs else "    @serialized")
                 if m.get("prop"):
                     lines.append("    @property")
                 ret = m["ret"].ann()
+                if m.get("conv"):
+                    # the method returns a raw value that its own conversion turns into m["ret"] (the type the schema shows)
+                    lines = [f"def {m['conv']}(x: {m['raw_ret']}) -> {ret}:", "    raise NotImplementedError", ""] + lines
+                    ret = m["raw_ret"]
                 if m.get("undefined"):
                     ret = f"Union[{ret}, UndefinedType]"
                 lines.append(f"    def {m['name']}(self) -> {ret}:")
